@@ -79,6 +79,13 @@ func scenarios(thorough bool) []*scenario {
 		mk("delete", three, ops.Op{Kind: ops.Delete, Name: "a"}),
 		mk("medium/new-version", []ops.Op{{Kind: ops.Put, Name: "blob", Value: big(150<<10, 7)}, put("a", "a-one")}, ops.Op{Kind: ops.Put, Name: "blob", Value: big(100<<10, 8)}),
 	}
+	// a credential rotated by automation: twenty versions of one secret, then the next one
+	var rotated []ops.Op
+	for i := 1; i <= 20; i++ {
+		rotated = append(rotated, put("rot", fmt.Sprintf("rot-%d", i)))
+	}
+	rotated = append(rotated, put("a", "a-one"))
+	out = append(out, mk("many-versions/new-version", rotated, put("rot", "rot-21")))
 	if thorough {
 		bigp := []ops.Op{{Kind: ops.Put, Name: "big", Value: big(3<<20, 1)}, {Kind: ops.Put, Name: "big", Value: big(2<<20, 2)}, put("a", "a-one"), put("a", "a-two")}
 		out = append(out,
